@@ -32,7 +32,7 @@ The places where the unchanged code does **not** satisfy the property are explic
   value with a three-digit exponent; `ascii_overflow_example` is `-2.5e-120` (finding F3);
 * `sparse_input_reclen_wraps`: a scipy.sparse input written in the binary dense layout computes its record
   length in numpy int32 arithmetic; from a 2 GiB column record on it wraps to a negative marker where the ndarray
-  path raises (`write_domain`) — finding F45.
+  path raises (`write_domain`) — finding F49.
 
 Second half of the file (after the ASCII half): the writer's true domain (`write_domain`,
 `file_roundtrip_binary_domain`), the sparse views of the readers (`coo_view_correct`, `sparse_auto_rule`, ASCII:
@@ -642,7 +642,7 @@ theorem denseMat_entry (add : Nat → Nat → Nat) (name : List Nat) (form : Nat
     | none => simp
     | some v => by_cases hz : v.isZero A.cplx = true <;> simp [hz]
 
-/-- **F45 (formal side).**  For a sparse input written in the dense layout the record length is computed in
+/-- **F49 (formal side).**  For a sparse input written in the dense layout the record length is computed in
 int32 arithmetic (`spRecLen`): from `elems = 2^28 - 1 = 268435455` doubles on (a record of 2 GiB) the marker written is a
 negative number, where the ndarray path refuses to write (`write_domain`: `recLen < 2^31`). -/
 theorem sparse_input_reclen_wraps (elems : Nat) (h1 : 268435455 ≤ elems) (h2 : elems < 536870910) :
